@@ -111,12 +111,13 @@ Definition star_dump (c : cache) : list (path * notif) :=
 Record metaobs := MO {
   mo_ints : list (option Z);
   mo_bools : list (option bool);
-  mo_strs : list (option string)
+  mo_strs : list (option string);
+  mo_srv : option string            (* GetStr(serverName): registered only with cache.WithServerName *)
 }.
 
 Definition meta_obs (m : metadata) : metaobs :=
   MO (map (md_get_int m) md_int_names) (map (md_get_bool m) md_bool_names)
-     (map (md_get_str m) md_str_names).
+     (map (md_get_str m) md_str_names) None.
 
 Definition target_meta (c : cache) (name : string) : option metaobs :=
   match assoc name (c_targets c) with
@@ -317,8 +318,10 @@ Fixpoint zip_app {A} (a b : list (list A)) : list (list A) :=
   | _, _ => a
   end.
 
-Definition mstep (s : mstate) (o : mop) : mstate * rcls * mfeed * list (list sresp) :=
-  let '(c', r, f) := cstep (ms_cache s) o in
+Definition mstep_gen (post : cache -> mop -> mfeed -> cache * mfeed) (s : mstate) (o : mop)
+  : mstate * rcls * mfeed * list (list sresp) :=
+  let '(c0, r, f0) := cstep (ms_cache s) o in
+  let '(c', f) := post c0 o f0 in
   let stepped := map (sub_step (mfeed_list f)) (ms_subs s) in
   let subs' := map fst stepped in
   let outs := map snd stepped in
@@ -348,6 +351,60 @@ Definition mstep (s : mstate) (o : mop) : mstate * rcls * mfeed * list (list sre
       | None => held subs' outs
       end
   | _ => held subs' outs
+  end.
+
+Definition mstep : mstate -> mop -> mstate * rcls * mfeed * list (list sresp) :=
+  mstep_gen (fun c _ f => (c, f)).
+
+(** ** cache.WithServerName (layer on top: CacheModel has no server name)
+
+    The option registers the string metadata [serverName] with reset action
+    KEEP; Cache.Add sets it once.  Metadata keeps the value for the life of the
+    target (also across Reset); the leaf meta/serverName is written by the
+    string loop of generateMetaUpdates -- i.e. by UpdateMetadata and by Reset --
+    whenever the stored leaf does not show it. *)
+Definition md_server_name : string := "serverName".
+
+Definition srv_refresh (sname : string) (now : Z) (t : target) : target * list notif :=
+  let shows := match CTreeModel.lookup (t_tree t) [md_root; md_server_name] with
+               | Some prev => match n_upd prev with
+                              | u :: _ => otv_eqb (u_val u) (Some (TStr sname))
+                              | [] => false
+                              end
+               | None => false
+               end in
+  if shows || name_in md_server_name (cfg_excluded (t_cfg t)) then (t, [])   (* excludedMeta: no update generated *)
+  else match gnmi_update1 t now (meta_noti (t_name t) now md_server_name (TStr sname)) with
+       | (t', Ok (Some nd)) => (t', [nd])
+       | (t', _) => (t', [])
+       end.
+
+Definition srv_refresh_in (sname : string) (now : Z) (c : cache) (name : string) : cache * list notif :=
+  match assoc name (c_targets c) with
+  | None => (c, [])
+  | Some t => let '(t', l) := srv_refresh sname now t in (set_target c name t', l)
+  end.
+
+Definition feed_app (f : mfeed) (l : list notif) : mfeed :=
+  match l with
+  | [] => f
+  | _ => MBag (mfeed_list f ++ l)
+  end.
+
+Definition srv_post (srv : option string) (c : cache) (o : mop) (f : mfeed) : cache * mfeed :=
+  match srv with
+  | None => (c, f)
+  | Some sname =>
+      match o with
+      | MReset now name =>
+          let '(c', l) := srv_refresh_in sname now c name in (c', feed_app f l)
+      | MUpdateMeta now =>
+          let '(c', l) := fold_left (fun st k => let '(c1, l1) := srv_refresh_in sname now (fst st) k in
+                                                 (c1, snd st ++ l1))
+                                    (keys (c_targets c)) (c, []) in
+          (c', feed_app f l)
+      | _ => (c, f)
+      end
   end.
 
 Definition mrun (s : mstate) (ops : list mop) : mstate :=
@@ -419,7 +476,8 @@ Definition opt_eqb {A} (e : A -> A -> bool) (a b : option A) : bool :=
 Definition metaobs_eqb (a b : metaobs) : bool :=
   list_eqb (opt_eqb Z.eqb) (mo_ints a) (mo_ints b) &&
   list_eqb (opt_eqb Bool.eqb) (mo_bools a) (mo_bools b) &&
-  list_eqb (opt_eqb String.eqb) (mo_strs a) (mo_strs b).
+  list_eqb (opt_eqb String.eqb) (mo_strs a) (mo_strs b) &&
+  opt_eqb String.eqb (mo_srv a) (mo_srv b).
 
 Definition tobs_eqb (a b : tobs) : bool :=
   Bool.eqb (to_has a) (to_has b) &&
@@ -490,6 +548,26 @@ Definition addressed (o : mop) (k : string) : bool :=
   | AAll => true
   | ANone => false
   end.
+
+(** the Metadata() view of an existing target shows the configured server name *)
+Definition with_srv (srv : option string) (a : tobs) : tobs :=
+  match to_meta a with
+  | Some m => TObs (to_has a) (to_dump a) (Some (MO (mo_ints m) (mo_bools m) (mo_strs m) srv))
+  | None => a
+  end.
+
+Definition corr_step_s (srv : option string) (o : mop) (s' : mstate) (r : rcls) (f : mfeed)
+  (outs : list (list sresp)) (ob : mobs) : bool :=
+  rcls_eqb r (o_res ob) &&
+  mfeed_matches f (o_feed ob) &&
+  forallb (fun kt => negb (addressed o (fst kt)) ||
+                     tobs_eqb (with_srv srv (model_tobs (ms_cache s') (fst kt))) (snd kt)) (o_tgts ob) &&
+  Nat.eqb (List.length (star_dump (ms_cache s'))) (List.length (o_star ob)) &&
+  Nat.eqb (List.length outs) (List.length (o_subs ob)) &&
+  forallb (fun x => group_eqb (mfeed_ordered f && negb (match o with MSubWalk _ _ _ | MUngate => true | _ => false end))
+                              (fst (fst x)) (fst (snd x)) &&
+                    sstat_eqb (snd (fst x)) (snd (snd x)))
+          (combine (combine outs (ms_vis s')) (o_subs ob)).
 
 Definition corr_step (o : mop) (s' : mstate) (r : rcls) (f : mfeed) (outs : list (list sresp)) (ob : mobs) : bool :=
   rcls_eqb r (o_res ob) &&
